@@ -4,7 +4,7 @@
    result = 0 :: payload for a normal return, 1 :: [code] for a Python exception,
    2 :: [] for "unknown function / malformed arguments" (harness bug, never a verdict). *)
 From Coq Require Import ZArith List Bool String.
-From MP Require Import Algo.Base Algo.Libmpf.
+From MP Require Import Algo.Base Algo.Libmpf Algo.Libmpc Algo.Libmpi.
 Import ListNotations.
 Open Scope Z_scope.
 
@@ -74,6 +74,105 @@ Definition table_mpf : list (string * handler) := [
   ("mpf_sum"%string, fun a => match a with (p :: r :: ab :: rest)%list => Some (out_mpf (mpf_sum (dec_mpfs rest) p (rnd_of_Z r) (negb (ab =? 0)))) | _ => None end)
 ].
 
+
+(* ---- complex and interval entry points: mpc / mpi = 8 ints, mpci = 16 ints ---- *)
+Definition enc_pair (z : mpf * mpf) : list Z := (enc_mpf (fst z) ++ enc_mpf (snd z))%list.
+Definition enc_mpci (z : mpci) : list Z := (enc_pair (fst z) ++ enc_pair (snd z))%list.
+Definition enc_ob (o : option bool) : list Z := match o with Some true => [1] | Some false => [0] | None => [-1] end.
+Definition P8 (a b c d e f g h : Z) : mpf * mpf := (Mpf a b c d, Mpf e f g h).
+
+Definition table_cplx : list (string * handler) := [
+  ("mpc_add"%string, fun a => match a with [a1;a2;a3;a4;a5;a6;a7;a8;b1;b2;b3;b4;b5;b6;b7;b8;p;r] =>
+      Some (0 :: enc_pair (mpc_add (P8 a1 a2 a3 a4 a5 a6 a7 a8) (P8 b1 b2 b3 b4 b5 b6 b7 b8) p (rnd_of_Z r))) | _ => None end);
+  ("mpc_sub"%string, fun a => match a with [a1;a2;a3;a4;a5;a6;a7;a8;b1;b2;b3;b4;b5;b6;b7;b8;p;r] =>
+      Some (0 :: enc_pair (mpc_sub (P8 a1 a2 a3 a4 a5 a6 a7 a8) (P8 b1 b2 b3 b4 b5 b6 b7 b8) p (rnd_of_Z r))) | _ => None end);
+  ("mpc_mul"%string, fun a => match a with [a1;a2;a3;a4;a5;a6;a7;a8;b1;b2;b3;b4;b5;b6;b7;b8;p;r] =>
+      Some (0 :: enc_pair (mpc_mul (P8 a1 a2 a3 a4 a5 a6 a7 a8) (P8 b1 b2 b3 b4 b5 b6 b7 b8) p (rnd_of_Z r))) | _ => None end);
+  ("mpc_div"%string, fun a => match a with [a1;a2;a3;a4;a5;a6;a7;a8;b1;b2;b3;b4;b5;b6;b7;b8;p;r] =>
+      Some (out_res enc_pair (mpc_div (P8 a1 a2 a3 a4 a5 a6 a7 a8) (P8 b1 b2 b3 b4 b5 b6 b7 b8) p (rnd_of_Z r))) | _ => None end);
+  ("mpc_square"%string, fun a => match a with [a1;a2;a3;a4;a5;a6;a7;a8;p;r] =>
+      Some (0 :: enc_pair (mpc_square (P8 a1 a2 a3 a4 a5 a6 a7 a8) p (rnd_of_Z r))) | _ => None end);
+  ("mpc_pos"%string, fun a => match a with [a1;a2;a3;a4;a5;a6;a7;a8;p;r] =>
+      Some (0 :: enc_pair (mpc_pos (P8 a1 a2 a3 a4 a5 a6 a7 a8) p (rnd_of_Z r))) | _ => None end);
+  ("mpc_neg"%string, fun a => match a with [a1;a2;a3;a4;a5;a6;a7;a8;p;r] =>
+      Some (0 :: enc_pair (mpc_neg (P8 a1 a2 a3 a4 a5 a6 a7 a8) p (rnd_of_Z r))) | _ => None end);
+  ("mpc_conjugate"%string, fun a => match a with [a1;a2;a3;a4;a5;a6;a7;a8;p;r] =>
+      Some (0 :: enc_pair (mpc_conjugate (P8 a1 a2 a3 a4 a5 a6 a7 a8) p (rnd_of_Z r))) | _ => None end);
+  ("mpc_reciprocal"%string, fun a => match a with [a1;a2;a3;a4;a5;a6;a7;a8;p;r] =>
+      Some (out_res enc_pair (mpc_reciprocal (P8 a1 a2 a3 a4 a5 a6 a7 a8) p (rnd_of_Z r))) | _ => None end);
+  ("mpc_sqrt"%string, fun a => match a with [a1;a2;a3;a4;a5;a6;a7;a8;p;r] =>
+      Some (out_res enc_pair (mpc_sqrt (P8 a1 a2 a3 a4 a5 a6 a7 a8) p (rnd_of_Z r))) | _ => None end);
+  ("mpc_abs"%string, fun a => match a with [a1;a2;a3;a4;a5;a6;a7;a8;p;r] =>
+      Some (out_res enc_mpf (mpc_abs (P8 a1 a2 a3 a4 a5 a6 a7 a8) p (rnd_of_Z r))) | _ => None end);
+  ("mpc_floor"%string, fun a => match a with [a1;a2;a3;a4;a5;a6;a7;a8;p;r] =>
+      Some (out_res enc_pair (mpc_floor (P8 a1 a2 a3 a4 a5 a6 a7 a8) p (rnd_of_Z r))) | _ => None end);
+  ("mpc_ceil"%string, fun a => match a with [a1;a2;a3;a4;a5;a6;a7;a8;p;r] =>
+      Some (out_res enc_pair (mpc_ceil (P8 a1 a2 a3 a4 a5 a6 a7 a8) p (rnd_of_Z r))) | _ => None end);
+  ("mpc_nint"%string, fun a => match a with [a1;a2;a3;a4;a5;a6;a7;a8;p;r] =>
+      Some (out_res enc_pair (mpc_nint (P8 a1 a2 a3 a4 a5 a6 a7 a8) p (rnd_of_Z r))) | _ => None end);
+  ("mpc_frac"%string, fun a => match a with [a1;a2;a3;a4;a5;a6;a7;a8;p;r] =>
+      Some (out_res enc_pair (mpc_frac (P8 a1 a2 a3 a4 a5 a6 a7 a8) p (rnd_of_Z r))) | _ => None end);
+  ("mpc_hash"%string, fun a => match a with [a1;a2;a3;a4;a5;a6;a7;a8] =>
+      Some [0; mpc_hash (P8 a1 a2 a3 a4 a5 a6 a7 a8)] | _ => None end);
+  ("mpc_mul_mpf"%string, fun a => match a with [a1;a2;a3;a4;a5;a6;a7;a8;b1;b2;b3;b4;p;r] =>
+      Some (0 :: enc_pair (mpc_mul_mpf (P8 a1 a2 a3 a4 a5 a6 a7 a8) (Mpf b1 b2 b3 b4) p (rnd_of_Z r))) | _ => None end);
+  ("mpc_add_mpf"%string, fun a => match a with [a1;a2;a3;a4;a5;a6;a7;a8;b1;b2;b3;b4;p;r] =>
+      Some (0 :: enc_pair (mpc_add_mpf (P8 a1 a2 a3 a4 a5 a6 a7 a8) (Mpf b1 b2 b3 b4) p (rnd_of_Z r))) | _ => None end);
+  ("mpc_sub_mpf"%string, fun a => match a with [a1;a2;a3;a4;a5;a6;a7;a8;b1;b2;b3;b4;p;r] =>
+      Some (0 :: enc_pair (mpc_sub_mpf (P8 a1 a2 a3 a4 a5 a6 a7 a8) (Mpf b1 b2 b3 b4) p (rnd_of_Z r))) | _ => None end);
+  ("mpc_div_mpf"%string, fun a => match a with [a1;a2;a3;a4;a5;a6;a7;a8;b1;b2;b3;b4;p;r] =>
+      Some (out_res enc_pair (mpc_div_mpf (P8 a1 a2 a3 a4 a5 a6 a7 a8) (Mpf b1 b2 b3 b4) p (rnd_of_Z r))) | _ => None end);
+  ("mpc_mpf_div"%string, fun a => match a with [b1;b2;b3;b4;a1;a2;a3;a4;a5;a6;a7;a8;p;r] =>
+      Some (out_res enc_pair (mpc_mpf_div (Mpf b1 b2 b3 b4) (P8 a1 a2 a3 a4 a5 a6 a7 a8) p (rnd_of_Z r))) | _ => None end);
+  ("mpc_mul_imag_mpf"%string, fun a => match a with [a1;a2;a3;a4;a5;a6;a7;a8;b1;b2;b3;b4;p;r] =>
+      Some (0 :: enc_pair (mpc_mul_imag_mpf (P8 a1 a2 a3 a4 a5 a6 a7 a8) (Mpf b1 b2 b3 b4) p (rnd_of_Z r))) | _ => None end);
+  ("mpc_mul_int"%string, fun a => match a with [a1;a2;a3;a4;a5;a6;a7;a8;n;p;r] =>
+      Some (0 :: enc_pair (mpc_mul_int (P8 a1 a2 a3 a4 a5 a6 a7 a8) n p (rnd_of_Z r))) | _ => None end);
+  ("mpc_pow_int"%string, fun a => match a with [a1;a2;a3;a4;a5;a6;a7;a8;n;p;r] =>
+      Some (out_res enc_pair (mpc_pow_int (P8 a1 a2 a3 a4 a5 a6 a7 a8) n p (rnd_of_Z r))) | _ => None end);
+  ("complex_int_pow"%string, fun a => match a with [x;y;n] =>
+      Some (let '(u, v) := complex_int_pow x y n in [0; u; v]) | _ => None end);
+  ("mpi_add"%string, fun a => match a with [a1;a2;a3;a4;a5;a6;a7;a8;b1;b2;b3;b4;b5;b6;b7;b8;p] =>
+      Some (0 :: enc_pair (mpi_add (P8 a1 a2 a3 a4 a5 a6 a7 a8) (P8 b1 b2 b3 b4 b5 b6 b7 b8) p)) | _ => None end);
+  ("mpi_sub"%string, fun a => match a with [a1;a2;a3;a4;a5;a6;a7;a8;b1;b2;b3;b4;b5;b6;b7;b8;p] =>
+      Some (0 :: enc_pair (mpi_sub (P8 a1 a2 a3 a4 a5 a6 a7 a8) (P8 b1 b2 b3 b4 b5 b6 b7 b8) p)) | _ => None end);
+  ("mpi_mul"%string, fun a => match a with [a1;a2;a3;a4;a5;a6;a7;a8;b1;b2;b3;b4;b5;b6;b7;b8;p] =>
+      Some (0 :: enc_pair (mpi_mul (P8 a1 a2 a3 a4 a5 a6 a7 a8) (P8 b1 b2 b3 b4 b5 b6 b7 b8) p)) | _ => None end);
+  ("mpi_div"%string, fun a => match a with [a1;a2;a3;a4;a5;a6;a7;a8;b1;b2;b3;b4;b5;b6;b7;b8;p] =>
+      Some (out_res enc_pair (mpi_div (P8 a1 a2 a3 a4 a5 a6 a7 a8) (P8 b1 b2 b3 b4 b5 b6 b7 b8) p)) | _ => None end);
+  ("mpi_neg"%string, fun a => match a with [a1;a2;a3;a4;a5;a6;a7;a8;p] => Some (0 :: enc_pair (mpi_neg (P8 a1 a2 a3 a4 a5 a6 a7 a8) p)) | _ => None end);
+  ("mpi_pos"%string, fun a => match a with [a1;a2;a3;a4;a5;a6;a7;a8;p] => Some (0 :: enc_pair (mpi_pos (P8 a1 a2 a3 a4 a5 a6 a7 a8) p)) | _ => None end);
+  ("mpi_abs"%string, fun a => match a with [a1;a2;a3;a4;a5;a6;a7;a8;p] => Some (0 :: enc_pair (mpi_abs (P8 a1 a2 a3 a4 a5 a6 a7 a8) p)) | _ => None end);
+  ("mpi_square"%string, fun a => match a with [a1;a2;a3;a4;a5;a6;a7;a8;p] => Some (0 :: enc_pair (mpi_square (P8 a1 a2 a3 a4 a5 a6 a7 a8) p)) | _ => None end);
+  ("mpi_sqrt"%string, fun a => match a with [a1;a2;a3;a4;a5;a6;a7;a8;p] => Some (out_res enc_pair (mpi_sqrt (P8 a1 a2 a3 a4 a5 a6 a7 a8) p)) | _ => None end);
+  ("mpi_delta"%string, fun a => match a with [a1;a2;a3;a4;a5;a6;a7;a8;p] => Some (out_mpf (mpi_delta (P8 a1 a2 a3 a4 a5 a6 a7 a8) p)) | _ => None end);
+  ("mpi_mid"%string, fun a => match a with [a1;a2;a3;a4;a5;a6;a7;a8;p] => Some (out_mpf (mpi_mid (P8 a1 a2 a3 a4 a5 a6 a7 a8) p)) | _ => None end);
+  ("mpi_pow_int"%string, fun a => match a with [a1;a2;a3;a4;a5;a6;a7;a8;n;p] => Some (out_res enc_pair (mpi_pow_int (P8 a1 a2 a3 a4 a5 a6 a7 a8) n p)) | _ => None end);
+  ("mpi_lt"%string, fun a => match a with [a1;a2;a3;a4;a5;a6;a7;a8;b1;b2;b3;b4;b5;b6;b7;b8] =>
+      Some (0 :: enc_ob (mpi_lt (P8 a1 a2 a3 a4 a5 a6 a7 a8) (P8 b1 b2 b3 b4 b5 b6 b7 b8))) | _ => None end);
+  ("mpi_le"%string, fun a => match a with [a1;a2;a3;a4;a5;a6;a7;a8;b1;b2;b3;b4;b5;b6;b7;b8] =>
+      Some (0 :: enc_ob (mpi_le (P8 a1 a2 a3 a4 a5 a6 a7 a8) (P8 b1 b2 b3 b4 b5 b6 b7 b8))) | _ => None end);
+  ("mpi_gt"%string, fun a => match a with [a1;a2;a3;a4;a5;a6;a7;a8;b1;b2;b3;b4;b5;b6;b7;b8] =>
+      Some (0 :: enc_ob (mpi_gt (P8 a1 a2 a3 a4 a5 a6 a7 a8) (P8 b1 b2 b3 b4 b5 b6 b7 b8))) | _ => None end);
+  ("mpi_ge"%string, fun a => match a with [a1;a2;a3;a4;a5;a6;a7;a8;b1;b2;b3;b4;b5;b6;b7;b8] =>
+      Some (0 :: enc_ob (mpi_ge (P8 a1 a2 a3 a4 a5 a6 a7 a8) (P8 b1 b2 b3 b4 b5 b6 b7 b8))) | _ => None end);
+  ("mpi_eq"%string, fun a => match a with [a1;a2;a3;a4;a5;a6;a7;a8;b1;b2;b3;b4;b5;b6;b7;b8] =>
+      Some (0 :: enc_bool (mpi_eq (P8 a1 a2 a3 a4 a5 a6 a7 a8) (P8 b1 b2 b3 b4 b5 b6 b7 b8))) | _ => None end);
+  ("mpci_op"%string, fun a => match a with
+      [op; a1;a2;a3;a4;a5;a6;a7;a8;a9;a10;a11;a12;a13;a14;a15;a16; b1;b2;b3;b4;b5;b6;b7;b8;b9;b10;b11;b12;b13;b14;b15;b16; p] =>
+      let x := (P8 a1 a2 a3 a4 a5 a6 a7 a8, P8 a9 a10 a11 a12 a13 a14 a15 a16) in
+      let y := (P8 b1 b2 b3 b4 b5 b6 b7 b8, P8 b9 b10 b11 b12 b13 b14 b15 b16) in
+      Some (match op with
+            | 0 => 0 :: enc_mpci (mpci_add x y p)
+            | 1 => 0 :: enc_mpci (mpci_sub x y p)
+            | 2 => 0 :: enc_mpci (mpci_mul x y p)
+            | 3 => out_res enc_mpci (mpci_div x y p)
+            | 4 => 0 :: enc_mpci (mpci_square x p)
+            | 5 => 0 :: enc_mpci (mpci_neg x p)
+            | _ => out_res enc_mpci (mpci_pow_int x (msign (fst (fst y))) p)
+            end) | _ => None end)
+].
+
 Fixpoint lookup (f : string) (t : list (string * handler)) : option handler :=
   match t with
   | [] => None
@@ -86,4 +185,4 @@ Definition dispatch_in (t : list (string * handler)) (f : string) (a : list Z) :
   | None => bad
   end.
 
-Definition dispatch (f : string) (a : list Z) : list Z := dispatch_in table_mpf f a.
+Definition dispatch (f : string) (a : list Z) : list Z := dispatch_in (table_mpf ++ table_cplx)%list f a.
